@@ -4,7 +4,7 @@
         ARGV     : sys.argv[1:] as a list of quoted strings;  draws: the values getrandbits returned, in order
         -> (out DEST "bytes" USED)   DEST = none | (some "file"); USED = number of draws read, or none
          | (clierror) | (crash) | (outside) | (oracle_end) | (oracle_bad)
-     (shm_parse_args ARGV)  -> (ok nop nov noc quiet SEED INPUT OUTPUT) | (error) | (help) | (outside)   (no files)
+     (shm_parse_args FILES NOWRITE ARGV)  -> (ok nop nov noc quiet SEED INPUT OUTPUT) | (error) | (help) | (outside)
      (shm_randbelow N (draw ...)) -> (ok R (rest ...)) | (end) | (bad)
      (shm_shuffle_list (j ...) (x ...)) -> (y ...)      random.shuffle of x with the given _randbelow results
      (shm_bounds nop nov noc N M) -> (bound ...) *)
@@ -32,8 +32,9 @@ let () =
       shm_of_result used r
     | _ -> raise (Bad "arity"));
   register "shm_parse_args" (function
-    | [argv] ->
-      (match shm_parse_args { shm_version = []; shm_files = []; shm_nowrite = [] } (shm_to_argv argv) with
+    | [files; nowrite; argv] ->
+      (match shm_parse_args { shm_version = []; shm_files = to_list (to_pair to_chars to_chars) files;
+                              shm_nowrite = to_list to_chars nowrite } (shm_to_argv argv) with
        | PaOk o -> L [A "ok"; of_bool o.so_nop; of_bool o.so_nov; of_bool o.so_noc; of_bool o.so_quiet;
                       of_opt of_chars o.so_seed; of_opt of_chars o.so_input; of_opt of_chars o.so_output]
        | PaError -> L [A "error"]
